@@ -2,6 +2,7 @@ package main
 
 import (
 	"context"
+	"sync"
 	"encoding/json"
 	"fmt"
 	"github.com/smallnest/rpcx/share"
@@ -836,6 +837,119 @@ func srvAsyncWrite(o *common.Out, id string, pool bool, style string) {
 	o.Count("async-write-schedule")
 }
 
+// queuePool: a worker pool (server.WithCustomPool) that only queues; the harness runs the queued tasks when and in
+// the order it wants - so the reader can have read several requests of one connection before any of them starts
+type queuePool struct {
+	mu    sync.Mutex
+	tasks []func()
+}
+
+func (p *queuePool) Submit(task func()) { p.mu.Lock(); p.tasks = append(p.tasks, task); p.mu.Unlock() }
+func (p *queuePool) StopAndWaitFor(time.Duration) {}
+func (p *queuePool) Stop() context.Context        { return context.Background() }
+func (p *queuePool) StopAndWait()                 {}
+func (p *queuePool) queued() int                  { p.mu.Lock(); defer p.mu.Unlock(); return len(p.tasks) }
+func (p *queuePool) take(i int) func() {
+	p.mu.Lock()
+	defer p.mu.Unlock()
+	t := p.tasks[i]
+	p.tasks[i] = nil
+	return t
+}
+
+// srvQueuedPool: k requests written to one connection in ONE burst, all read and queued before any starts, then run
+// in the given order: each is answered once, with its own stamp and its own result.  case: qpool|<reqs>|<order>
+func srvQueuedPool(o *common.Out, id string, reqs []sreqCase, order []int) {
+	var encs, os []string
+	for i, q := range reqs {
+		encs = append(encs, q.enc(i))
+	}
+	for _, x := range order {
+		os = append(os, strconv.Itoa(x))
+	}
+	abstract := fmt.Sprintf("qpool|%s|%s", strings.Join(encs, ";"), strings.Join(os, ","))
+	o.Begin(id, abstract)
+	o.Count("queued-worker-pool-burst")
+	qp := &queuePool{}
+	rig := newSrvRig(false, server.WithCustomPool(qp))
+	rig.start()
+	defer rig.stop()
+	p, err := rig.connect()
+	if err != nil {
+		o.Fail(id, "rig", err.Error(), abstract)
+		return
+	}
+	defer p.close()
+	var burst []byte
+	var model []string
+	for rid, q := range reqs {
+		path, meth := q.pathMethod()
+		burst = append(burst, reqSpec{seq: q.seq, path: path, method: meth, ser: q.ser, hb: q.hb, oneway: q.ow, payload: q.payload(rid),
+			meta: []refcodec.KV{{K: []byte("rid"), V: []byte(strconv.Itoa(rid))}}}.frame()...)
+		model = append(model, q.modelTok(rid))
+	}
+	if _, err := p.conn.Write(burst); err != nil {
+		o.Fail(id, "connection-closed", err.Error(), abstract)
+		return
+	}
+	deadline := time.Now().Add(3 * time.Second)
+	for qp.queued() < len(reqs) && time.Now().Before(deadline) {
+		time.Sleep(200 * time.Microsecond)
+	}
+	if qp.queued() != len(reqs) {
+		o.Fail(id, "not-queued", fmt.Sprintf("%d of %d requests reached the worker pool", qp.queued(), len(reqs)), abstract)
+		return
+	}
+	var per []string
+	for _, rid := range order {
+		qp.take(rid)()
+		model = append(model, fmt.Sprintf("D:%d", rid))
+		q := reqs[rid]
+		if q.ow && !q.hb {
+			continue
+		}
+		f := p.next(3 * time.Second)
+		if f == nil {
+			o.Fail(id, "no-response", fmt.Sprintf("request %d (seq %d) got no response after its task ran", rid, q.seq), abstract)
+			continue
+		}
+		v := viewFrame(f)
+		per = append(per, showView(v, &q, rid))
+		path, meth := q.pathMethod()
+		if !v.isResp || v.seq != q.seq || v.path != path || v.method != meth || v.ser != q.ser {
+			o.Fail(id, "wrong-stamp", fmt.Sprintf("the task of request %d (seq %d %s.%s) wrote a response with seq=%d %s.%s resp=%v", rid, q.seq, path, meth, v.seq, v.path, v.method, v.isResp), abstract)
+		}
+		if q.mode == "ok" && !q.hb && q.ser == 1 && !q.badJSON && q.style != "nosvc" && q.style != "nometh" {
+			if rp, ok := replyOf(v); !ok || v.status != "normal" || rp.Id != rid || rp.C != q.a*q.effB() {
+				o.Fail(id, "wrong-result", fmt.Sprintf("request %d (A=%d,B=%d) answered status=%s payload=%s", rid, q.a, q.effB(), v.status, show(v.payload)), abstract)
+			}
+		}
+	}
+	if err := p.send(reqSpec{seq: 999999, hb: true, ser: 1, payload: []byte("hb")}); err == nil {
+		dl := time.Now().Add(3 * time.Second)
+		for qp.queued() < len(reqs)+1 && time.Now().Before(dl) {
+			time.Sleep(200 * time.Microsecond)
+		}
+		if qp.queued() == len(reqs)+1 {
+			qp.take(len(reqs))()
+		}
+		if f := p.next(3 * time.Second); f == nil {
+			o.Fail(id, "server-dead", "the connection no longer answers heartbeats", abstract)
+		} else if v := viewFrame(f); !v.hb || v.seq != 999999 {
+			o.Fail(id, "extra-response", "the connection carries an extra frame: "+showView(v, nil, -1), abstract)
+		}
+	}
+	rig.h.mu.Lock()
+	inv := append([]int{}, rig.h.invoked...)
+	rig.h.mu.Unlock()
+	sortInts(inv)
+	is := make([]string, len(inv))
+	for i, x := range inv {
+		is[i] = strconv.Itoa(x)
+	}
+	o.Case(id, strings.Join(model, " "), fmt.Sprintf("c0=[%s] inv=[%s]", strings.Join(per, ";"), strings.Join(is, ",")), true)
+}
+
 func genSreq(prop string, r *common.Rand, nconn int) sreqCase {
 	q := sreqCase{conn: r.Intn(nconn), seq: uint64(r.Intn(6)), ser: 1, a: r.Intn(12), b: 1 + r.Intn(12), mode: "ok"}
 	if r.Chance(20) {
@@ -885,6 +999,20 @@ func runSrv(prop string, r *common.Rand, tier string, o *common.Out, replay stri
 	if strings.HasPrefix(replay, "async|") {
 		p := strings.Split(replay, "|")
 		srvAsyncWrite(o, "replay", p[1] == "true", p[2])
+		return
+	}
+	if strings.HasPrefix(replay, "qpool|") {
+		p := strings.Split(replay, "|")
+		var reqs []sreqCase
+		for _, e := range strings.Split(p[1], ";") {
+			reqs = append(reqs, decSreq(e))
+		}
+		var order []int
+		for _, t := range strings.Split(p[2], ",") {
+			n, _ := strconv.Atoi(t)
+			order = append(order, n)
+		}
+		srvQueuedPool(o, "replay", reqs, order)
 		return
 	}
 	if replay != "" {
@@ -955,6 +1083,38 @@ func runSrv(prop string, r *common.Rand, tier string, o *common.Out, replay stri
 				k++
 				srvAsyncWrite(o, fmt.Sprintf("async%d", k), pool, style)
 			}
+		}
+	}
+	if prop == "C04" {
+		nq := 24
+		if tier == "thorough" {
+			nq = 400
+		}
+		for i := 0; i < nq; i++ {
+			k := 2 + r.Intn(3)
+			var reqs []sreqCase
+			for j := 0; j < k; j++ {
+				q := genSreq("C20", r, 1)
+				q.conn = 0
+				if q.style == "router" {
+					q.style = "method"
+				}
+				if q.mode == "panic" || q.mode == "veto" {
+					q.mode = "ok"
+				}
+				reqs = append(reqs, q)
+			}
+			order := make([]int, k)
+			for j := range order {
+				order[j] = j
+			}
+			if i%2 == 1 {
+				for j := range order {
+					x := j + r.Intn(k-j)
+					order[j], order[x] = order[x], order[j]
+				}
+			}
+			srvQueuedPool(o, fmt.Sprintf("qp%d", i), reqs, order)
 		}
 	}
 	if prop == "C04" || prop == "C07" {
